@@ -707,12 +707,7 @@ def P(t, s, ctx, path):
                 return P(sub, s, ctx, path)
         return P(t[3] if t[3] is not None else ["Pass"], s, ctx, path)
     if k in ("Rebuild", "Default", "Hex", "HexDump"):
-        if k == "Hex":
-            v = P(t[1], s, ctx, path)
-            if isinstance(v, int) and not isinstance(v, bool):
-                sizeof_(t[1], ctx, path)        # the display width needs the size
-            return v
-        return P(t[1], s, ctx, path)
+        return P(t[1], s, ctx, path)           # Hex/HexDump only change how the value is displayed
     if k in ("OneOf", "NoneOf"):
         v = P(t[1], s, ctx, path)
         ok = any(same_value(v, x) for x in t[2])
